@@ -1333,7 +1333,8 @@ namespace avel {
         auto is_reconstruction_smaller = _mm_cmplt_pd(reconstructed, decay(v));
         auto corrected_result = _mm_add_pd(reconstructed, _mm_and_pd(is_reconstruction_smaller, _mm_set1_pd(1.0f)));
 
-        return blend(mask2x64f{is_output_self}, v, vec2x64f{corrected_result});
+        // The conversion through integers loses the sign of zero results
+        return copysign(blend(mask2x64f{is_output_self}, v, vec2x64f{corrected_result}), v);
 
         #endif
 
@@ -1366,7 +1367,8 @@ namespace avel {
         auto is_reconstruction_smaller = _mm_cmplt_pd(decay(v), reconstructed);
         auto corrected_result = _mm_sub_pd(reconstructed, _mm_and_pd(is_reconstruction_smaller, _mm_set1_pd(1.0f)));
 
-        return blend(mask2x64f{is_output_self}, v, vec2x64f{corrected_result});
+        // The conversion through integers loses the sign of zero results
+        return copysign(blend(mask2x64f{is_output_self}, v, vec2x64f{corrected_result}), v);
 
         #endif
 
@@ -1396,7 +1398,8 @@ namespace avel {
 
         auto reconstructed = _mm_unpacklo_pd(reconstructed0, reconstructed1);
 
-        return blend(mask2x64f{is_output_self}, v, vec2x64f{reconstructed});
+        // The conversion through integers loses the sign of zero results
+        return copysign(blend(mask2x64f{is_output_self}, v, vec2x64f{reconstructed}), v);
 
         #endif
 
@@ -1449,7 +1452,8 @@ namespace avel {
 
                 auto reconstructed = _mm_unpacklo_pd(reconstructed0, reconstructed1);
 
-                return blend(mask2x64f{is_output_self}, v, vec2x64f{reconstructed});
+                // The conversion through integers loses the sign of zero results
+                return copysign(blend(mask2x64f{is_output_self}, v, vec2x64f{reconstructed}), v);
             }
             case _MM_ROUND_DOWN:        return avel::floor(v);
             case _MM_ROUND_TOWARD_ZERO: return avel::trunc(v);
